@@ -446,7 +446,7 @@ class ProbeEngine(object):
                     w.violate("PS", "get_processor_status %r core %d: %s = "
                               "%r, machine has %r" % (xy, p, k, got, val),
                               kind="processor-status", field=k)
-            head = ch.mem.r32(VCPU_BASE + VCPU_SIZE * p +
+            head = ch.mem.r32(ch.vcpu_base + VCPU_SIZE * p +
                               m.vcpu_fields["iobuf"].offset)
             if v.iobuf_address != head:
                 w.violate("PS", "iobuf_address differs",
@@ -520,6 +520,9 @@ class ProbeEngine(object):
                     if (x, y) not in m.chips:
                         m.chips[(x, y)] = Chip(m, x, y, 18)
         c.machine = self.m = m
+        if t.draw(3) == 0:
+            m.vary_layout()
+            w.probe("per_chip_layout")
         # global busy pattern: cores busy on every chip
         gl = {0: ST_RUN}
         for _ in range(t.draw_small(4, 0.5)):
